@@ -8,8 +8,9 @@
    Wire/FastTables.v (the three tables of generator/fastgo/consts.go, regenerated from /repo on every
    run: wire_size, wire_type and elem_const go through them, so a changed entry breaks these proofs). *)
 From Coq Require Import List ZArith Bool Lia.
+From Coq.Strings Require Import Byte.
 From Verif Require Import Base.Bytes Base.BE Wire.TType Wire.WVal Wire.Codec Wire.CodecFacts
-  Wire.Schema Wire.Value Wire.Std Wire.StdFacts Wire.Fast Wire.FastFacts.
+  Wire.Schema Wire.Value Wire.Std Wire.StdFacts Wire.Fast Wire.FastFacts Wire.FastReadFacts.
 Import ListNotations.
 Open Scope Z_scope.
 
@@ -47,3 +48,88 @@ Theorem C10_fast_append_is_std_any_type : forall e v t w,
   to_w e t v = Ok w -> fa_val e t v = enc (sortw w).
 Proof. exact fa_val_is_std. Qed.
 Print Assumptions C10_fast_append_is_std_any_type.
+
+(* ---- gopkg's Skip (as transcribed in fskip) consumes exactly a well-formed encoding of at most its
+        depth limit ---- *)
+
+Theorem C10_skip_enc : forall x r, wf x -> (depth x <= default_recursion_depth)%nat ->
+  fskip_top (code (wtype x)) (enc x ++ r) = FOk (Z.of_nat (length (enc x))).
+Proof. exact fskip_top_enc. Qed.
+Print Assumptions C10_skip_enc.
+
+(* ---- FastRead = the standard Read. For every schema e (ids unique: wf_env), every struct-like s, every
+        start object, and every well-formed wire struct w nested at most 64 deep — whatever schema its
+        writer had, so unknown ids and known ids with another wire type are included: on the bytes of w,
+        followed by anything,
+          the standard Read yields an object        => FastRead yields the same object and has consumed
+                                                      exactly the encoding;
+          the standard Read reports a missing
+          required field                            => FastRead reports a missing required field
+                                                      (the same error class; the two readers may name
+                                                      different fields: declaration order / id order).
+        The third possible answer of the standard model, EHeader (a field the reader knows carries a
+        container whose header contradicts the schema), is outside the modelled behaviour of both. ---- *)
+
+Theorem C10_fast_read_eq_std_read : forall e s init wfs rest v,
+  wf_env e = true -> wf_struct s = true -> wf (WStruct wfs) ->
+  (depth (WStruct wfs) <= default_recursion_depth)%nat ->
+  read_bytes e s init (enc (WStruct wfs) ++ rest) = Ok v ->
+  fast_read e s init (enc (WStruct wfs) ++ rest) = FOk (v, Z.of_nat (length (enc (WStruct wfs)))).
+Proof. exact fast_read_eq_std_read. Qed.
+Print Assumptions C10_fast_read_eq_std_read.
+
+Theorem C10_fast_read_required_missing : forall e s init wfs rest id,
+  wf_env e = true -> wf_struct s = true -> wf (WStruct wfs) ->
+  (depth (WStruct wfs) <= default_recursion_depth)%nat ->
+  read_bytes e s init (enc (WStruct wfs) ++ rest) = Err (ERequiredMissing id) ->
+  exists id', fast_read e s init (enc (WStruct wfs) ++ rest) = FErr (FRequired id').
+Proof. exact fast_read_required_missing. Qed.
+Print Assumptions C10_fast_read_required_missing.
+
+(* the same at every type, on wire values: FastRead of a field payload / element / key *)
+Theorem C10_fast_read_any_type : forall e, wf_env e = true -> forall w fuel t,
+  wf w -> (depth w <= fuel)%nat -> (depth w <= default_recursion_depth)%nat -> wtype w = spec_ttype t ->
+  match from_w e t w with
+  | Ok v => forall rest, fr_val fuel e t (enc w ++ rest) = FOk (v, rest)
+  | Err (ERequiredMissing _) => forall rest, exists id, fr_val fuel e t (enc w ++ rest) = FErr (FRequired id)
+  | Err _ => True
+  end.
+Proof. exact (fun e H w => fr_val_from_w e H w). Qed.
+Print Assumptions C10_fast_read_any_type.
+
+(* tolerance: fields the reader must skip do not change the object *)
+Theorem C10_fast_read_ignores_unknown : forall e s init wfs rest v,
+  wf_env e = true -> wf_struct s = true -> wf (WStruct wfs) ->
+  (depth (WStruct wfs) <= default_recursion_depth)%nat ->
+  from_wire e s init (WStruct (filter (fun wf => negb (skippable e s wf)) wfs)) = Ok v ->
+  fast_read e s init (enc (WStruct wfs) ++ rest) = FOk (v, Z.of_nat (length (enc (WStruct wfs)))).
+Proof. exact fast_read_ignores_unknown. Qed.
+Print Assumptions C10_fast_read_ignores_unknown.
+
+(* ---- "returns an error instead of panicking" does NOT hold for the unchanged code: two recorded
+        findings, both inside gopkg's Skip, exhibited on the model (and on the compiled code by the
+        correspondence corpus) ---- *)
+
+(* one corrupted type byte (08 -> ff): Skip indexes typeToSize with a negative TType *)
+Theorem C10_fast_read_corrupted_type_byte_refuted :
+  exists e s v bs, wt e s v = true /\ fast_append e s v = x08 :: bs /\
+                   fast_read e s (new_struct e s) (fast_append e s v) = FOk (v, Z.of_nat (length (fast_append e s v))) /\
+                   fast_read e s (new_struct e s) (xff :: bs) = FErr FIndex.
+Proof. exact fast_read_corrupted_type_byte_refuted. Qed.
+Print Assumptions C10_fast_read_corrupted_type_byte_refuted.
+
+(* a proper prefix of an accepted encoding that carries an unknown map<string,i64> field: Skip reports
+   more bytes than its buffer has *)
+Theorem C10_fast_read_truncated_refuted :
+  exists e s w n, wf w /\ (n < length (enc w))%nat /\
+                  (exists v, fast_read e s (new_struct e s) (enc w) = FOk (v, Z.of_nat (length (enc w)))) /\
+                  fast_read e s (new_struct e s) (firstn n (enc w)) = FErr FOverrun.
+Proof. exact fast_read_truncated_refuted. Qed.
+Print Assumptions C10_fast_read_truncated_refuted.
+
+(* one corrupted type byte (0c -> 0d) of an encoding of the struct's own value: the same overrun *)
+Theorem C10_fast_read_corrupted_overrun_refuted :
+  exists e s v bs, wt e s v = true /\ fast_append e s v = x0c :: bs /\
+                   fast_read e s (new_struct e s) (x0d :: bs) = FErr FOverrun.
+Proof. exact fast_read_corrupted_overrun_refuted. Qed.
+Print Assumptions C10_fast_read_corrupted_overrun_refuted.
